@@ -48,6 +48,7 @@ class Obs:
         self.t_stop = None
         self.t_flag = None
         self.work_after_stop = 0.0
+        self.ran = False
         self.finalized = 0
         self.iterations_after_release = 0
         self.steps = 0
@@ -177,11 +178,12 @@ def _taps(sched, box, obs: Obs, guide=None):
         return v
 
     def notify(self, n=1):
-        if lock_id(self) == 2:
+        l = lock_id(self)
+        if l in (1, 2):
             if not self._lock._is_owned():
                 log("crash")
             else:
-                log("notify")
+                log("notify" if l == 2 else "notify:1")
         return orig_notify(self, n)
 
     D.Event.is_set = is_set
@@ -282,6 +284,9 @@ def run_case(case: dict, guide_schedule=None) -> Obs:
     delay = float(case.get("delay", 0))
     policy = case.get("policy")
     dur = case.get("dur", SLEEP_D)
+    order = case.get("order", "normal")        # normal | before-start | twice | after-join | shutdown-only
+    if order in ("twice", "after-join"):
+        obs.n_stop = 2
     obs = Obs()
     obs.n_stop = 2 if two else 1
     obs.pub = npub
@@ -304,6 +309,7 @@ def run_case(case: dict, guide_schedule=None) -> Obs:
                 box.update(task=self, thread=runner._thread, qc=self.rx._queue_cond, rx=self.rx)
 
             def run(self):
+                obs.ran = True
                 if gate is not None:
                     gate.wait()
                 box["in_run"] = True
@@ -398,6 +404,20 @@ def run_case(case: dict, guide_schedule=None) -> Obs:
             task_ts = box["thread"]._ds_ts
             task_ts.prio = 9.0 if mode == "task-first" else 0.5
             obs.k0 = sched.steps
+            if order == "before-start":
+                # the stop request reaches a task that was never started (_state READY_TO_RUN): run() must never be called
+                obs.t_stop = sched.now
+                t2 = None
+                if two:
+                    t2 = w.spawn(lambda: box["thread"]._request_shutdown(), "stop2")
+                    t2._ds_ts.prio = [1.95, 0.8, 8.5][(seed // 3) % 3]
+                proxy.stop()
+                box["stop_returned"] = True
+                proxy.join()
+                obs.join_returned = True
+                if t2 is not None:
+                    t2.join()
+                return "joined"
             proxy.start()
             extra = []
             if npub and kind != "loop":
@@ -418,12 +438,19 @@ def run_case(case: dict, guide_schedule=None) -> Obs:
             if delay > 0:
                 D.TIME_SHIM.sleep(delay)          # virtual time: the task times out of / loops through earlier waits
             obs.t_stop = sched.now
-            proxy.stop()
+            if order == "shutdown-only":
+                box["thread"]._request_shutdown()      # the only stop request is the interpreter-shutdown hook
+            else:
+                proxy.stop()
             box["stop_returned"] = True
+            if order == "twice":
+                proxy.stop()                           # the same operation twice
             if gate is not None:
                 gate.set()
             proxy.join()
             obs.join_returned = True
+            if order == "after-join":
+                proxy.stop()                           # a stop request for a task that has already ended
             for t in extra:
                 t.join()
             return "joined"
@@ -463,6 +490,12 @@ def oracle(case: dict, obs: Obs) -> Optional[str]:
     terr = [e for (n, e) in obs.thread_errors]
     if terr:
         return f"thread-died-{terr[0]}"
+    if case.get("order") == "before-start":
+        if not obs.join_returned:
+            return "task-not-released"
+        if obs.ran:
+            return "task-ran-although-stopped-before-start"
+        return None
     if not obs.join_returned or obs.released is None:
         return "task-not-released"
     if kind == "loop":
@@ -483,18 +516,24 @@ def oracle(case: dict, obs: Obs) -> Optional[str]:
 def case_sig(case: dict) -> str:
     return (f"{case['kind']}{'+late' if case.get('late') else ''}{'+2stop' if case.get('two') else ''}"
             f"{'+delay' if case.get('delay') else ''}{'+' + case['policy'] if case.get('policy') else ''}"
-            f"{'+dur=' + repr(case['dur']) if 'dur' in case else ''}")
+            f"{'+dur=' + repr(case['dur']) if 'dur' in case else ''}"
+            f"{'+' + case['order'] if case.get('order', 'normal') != 'normal' else ''}")
 
 
 def model_lines(case: dict, obs: Obs) -> list:
     task = "loop" if case["kind"] == "loop" else "any"
-    lines = [f"sys {task} {obs.n_stop} {1 if (obs.pub and case['kind'] != 'loop') else 0} 1"]
+    if case.get("order") == "before-start":
+        lines = [f"sys idle {obs.n_stop} 0 1 READY_TO_RUN"]
+    else:
+        lines = [f"sys {task} {obs.n_stop} {1 if (obs.pub and case['kind'] != 'loop') else 0} 1"]
     lines += [f"ev {tid} {lab}" for (tid, lab) in obs.events]
     lines.append("q")
     return lines
 
 
 def expected_final(case: dict) -> str:
+    if case.get("order") == "before-start":
+        return "task=done fin=0 state=TASK_STOPPED_BEFORE_START flag=0"
     return "task=done fin=1" if case["kind"] == "loop" else "task=raised:stop fin=0"
 
 
@@ -557,6 +596,13 @@ class C11(Prop):
         vs.append(({"kind": "paced", "mode": "task-first", "late": True, "seed": 0}, 1))
         for mode in ("task-first", "stop-first"):
             vs.append(({"kind": "paced", "mode": mode, "seed": 0}, 1 if thorough else 2))
+        # the stop request in the other states of the task thread / the same request twice / after the end
+        vs.append(({"kind": "sleep", "mode": "task-first", "order": "before-start", "seed": 0}, 1))
+        vs.append(({"kind": "sleep", "mode": "stop-first", "order": "before-start", "two": True, "seed": 0}, 1 if thorough else 2))
+        for kind in ("sleep", "recvN", "loop"):
+            for order in ("twice", "after-join", "shutdown-only"):
+                for mode in ("task-first", "stop-first"):
+                    vs.append(({"kind": kind, "mode": mode, "order": order, "seed": 0}, 1 if thorough else 3))
         # slow loop iterations: the missed-period policies of QMI_LoopTask.run (TERMINATE = the task stops itself)
         for pol in ("IMMEDIATE", "SKIP", "TERMINATE"):
             for mode in ("task-first", "stop-first"):
